@@ -24,6 +24,7 @@ Fixpoint nodup_str (l : list string) : bool :=
   | x :: l' => negb (existsb (String.eqb x) l') && nodup_str l'
   end.
 
+(* the executor runs on miniredis: expiry_inclusive = true *)
 (* hypotheses of the theorems, as a boolean: distinct ids, time does not run backwards *)
 Definition op_wf (o : op) : bool :=
   match o with OAdvance ms => 0 <=? ms | OPoke _ (Some t) => 0 <? t | _ => true end.
@@ -31,13 +32,13 @@ Definition wf (c : case) : bool := nodup_str (cids c) && forallb op_wf (cops c).
 
 (* the generated scripts + Go wrappers reproduce what the implementation answered *)
 Definition agrees (c : case) : bool :=
-  list_eqb obs_eqb (run (ckey c) (init (cids c)) (cops c)) (cobs c).
+  list_eqb obs_eqb (run (ckey c) (init true (cids c)) (cops c)) (cobs c).
 
 (* the property on the implementation's own answers: they are the answers of the lease
    specification (one holder until seconds*1000+500 ms after its last successful Acquire or
    until it releases; only the holder's Release frees) *)
 Definition prop_ok (c : case) : bool :=
-  if wf c then list_eqb obs_eqb (sp_run (abs (ckey c) (init (cids c))) (cops c)) (cobs c)
+  if wf c then list_eqb obs_eqb (sp_run (abs (ckey c) (init true (cids c))) (cops c)) (cobs c)
   else true.
 
-Definition model_obs (c : case) : list obs := run (ckey c) (init (cids c)) (cops c).
+Definition model_obs (c : case) : list obs := run (ckey c) (init true (cids c)) (cops c).
